@@ -6,7 +6,7 @@ _RULE = ("gridmc over declared finite grids, each point run through the real rkc
          "(LinearSpace2f: inverse/rcp/transposed/adjoint/rows/orthogonal(); det and composition on ALL ordered pairs; AffineSpace2f: "
          "x 16 translations {-2,0,1,3}^2 x 4 partner maps). 3x3 (LinearSpace3f and 3fa): all matrices over {-1,0,1/2,2}^9 (quick) / "
          "{-2,-1,-1/2,0,1/2,1,2}^9 = 40.4M (thorough) with kappa<=64, each paired in both orders with 4 (2) fixed partner matrices and 2 points; "
-         "AffineSpace3f/3fa: kept linear parts over {-1,0,1/2,2}^9 (quick) / {-2,-1,0,1/2,1}^9 (thorough) x 64 translations {-2,0,1,3}^3 x 4 "
+         "AffineSpace3f/3fa: kept linear parts over {-1,0,1/2,2}^9 (quick) / {-2,-1,0,1/2,1}^9 (thorough) x 64 translations {-2,0,1,3}^3 x 2 "
          "partner maps x 2 points. Rotations: 26 unit axes of {-1,0,1}^3 x angles k*pi/12, k in [-24,24] for L3::rotate, A::rotate "
          "(x 64 centre points), quatf/quatd::rotate, matrix<-quaternion, quaternion<-matrix (branch decided by the harness, counted per "
          "branch), conj/rcp/normalize; all 1274^2 ordered quaternion pairs: product, quaternion<-matrix of the composed rotation, slerp at "
